@@ -57,13 +57,13 @@ _RESERVED = set(
 _RAW_POOL = """x y z v w a1 a10 a2 b B X Xa x_dot x_dot2 xd Y1 mass theta phi_1 q0 q1 q10
 k_p Kd omega vel pos_x pos_y r u1 u2 U m0 tau alpha1 h p c0 c1 Cm zz Zed n1 bias_a bias_g
 thrust drag lift yaw Yaw pitch roll_r g0 rho1 temp_K T1 t2 Vx vx Vy vy az Az W2 w_2 d d2 D_3
-e1 E2 k L1 l2 s1 S_2 aa ab Ab aB a_ a_b ba z9 z10 Z1""".split()
+e1 E2 k L1 l2 s1 S_2 aa ab Ab aB a_ a_b ba z9 z10 Z1 x0 x1 x2 x3""".split()
 
 _SENSOR_POOL = """altitude gps imu_a imu_b s1 s10 s2 range_b baro mag_x cam7 lidar odo wheel_l
 wheel_r aux depth sonar t1 t10 t2 pitot beacon""".split()
 
 _READING_POOL = """r0 r1 r10 r2 alt px py vz Vz meas_a meas_b out1 out2 out10 ra Rb rc_ m_x m_y
-lat lon hgt dop""".split()
+lat lon hgt dop x0 x1""".split()
 
 
 def _sympy_names():
@@ -209,7 +209,7 @@ def program(rng, **kw):
 def _program(rng, *, n_state=(1, 5), n_control=(0, 3), n_calib=(0, 3), n_sensor=(0, 3),
             n_reading=(1, 4), depth=3, cpp_safe=True, allow_text=True, n_shared=(1, 3),
             integrator_bias=0.5, dt_names=("dt",), sensor_calib=True, containers=True, wraps=False,
-            assumptions=True, physical=True, int_calibration=False,
+            assumptions=True, physical=True, int_calibration=False, zero_noise=0.06,
             calib_containers=("set", "set", "frozenset", "list", "tuple")):
     """Random model + sensor definition."""
     P = pools()
@@ -323,6 +323,24 @@ def _program(rng, *, n_state=(1, 5), n_control=(0, 3), n_calib=(0, 3), n_sensor=
         "reading_keys": reading_keys,
         "n_shared": len(shared),
     }
+    if calib and len(state) >= 2 and rng.random() < 0.3:
+        # a sub-term that reads the calibration only (cos / sin of a mounting angle), shared by two updates
+        # and a reading
+        ck = rng.choice(calib)
+        cterm = ["mul", ["sin", E.S(ck)], ["hyp", E.S(rng.choice(calib))]]
+        for tgt in rng.sample(state, 2):
+            defn["model"][tgt] = ["add", defn["model"][tgt], ["mul", E.S(dtn), cterm]]
+            defn["model_as_text"] = [n for n in defn["model_as_text"] if n != tgt]
+        if sensor_calib and defn["sensors"]:
+            sn0 = rng.choice(sorted(defn["sensors"]))
+            rn0 = rng.choice(sorted(defn["sensors"][sn0]))
+            defn["sensors"][sn0][rn0] = ["add", defn["sensors"][sn0][rn0], cterm]
+        defn["calibration_only_shared_term"] = True
+    for c in list(defn["process_noise"]):
+        # a control input that is known exactly: process noise of exactly zero is a valid assignment
+        if rng.random() < zero_noise:
+            defn["process_noise"][c] = 0.0
+            defn["has_zero_process_noise"] = True
     if rng.random() < 0.12:
         # noise magnitudes written as exact rationals (fractions.Fraction / sympy.Rational), e.g. a
         # datasheet value 1/3; the float the oracle uses is exactly float(rational)
@@ -480,8 +498,43 @@ def linear_in_state_program(rng, **kw):
     return d
 
 
+def integer_linear_program(rng, **kw):
+    """Linear updates and readings with small integer coefficients (x - y, x - 2*y, -x + y): the flattened
+    Jacobians are constant matrices whose entries differ only in -1 / -2 / 1 / 2 - entries that are distinct
+    but hash alike in Python (hash(-1) == hash(-2)) sit side by side."""
+    kw.setdefault("n_state", (2, 4))
+    d = _program(rng, integrator_bias=0.0, **kw)
+    st, ctl = d["state"], d["control"]
+
+    def comb(names, k_min=2):
+        picked = rng.sample(names, min(len(names), rng.randint(k_min, 3)))
+        coefs = [rng.choice([-2, -1, 1, 2]) for _ in picked]
+        if -1 not in coefs and -2 not in coefs:
+            coefs[0] = -1
+        if len(coefs) >= 2 and not ({-1, -2} <= set(coefs)) and rng.random() < 0.7:
+            coefs[-1] = -2 if -1 in coefs else -1
+        body = None
+        for c, n in zip(coefs, picked):
+            term = ["mul", E.C(c), E.S(n)]
+            body = term if body is None else ["add", body, term]
+        return body
+
+    model = {}
+    for s in st:
+        body = ["add", E.S(s), ["mul", E.S(d["dt"]), comb(st)]]
+        if ctl:
+            body = ["add", body, ["mul", E.S(d["dt"]), comb(ctl, 1)]]
+        model[s] = body
+    d["model"] = _shuffled_dict(rng, model)
+    d["sensors"] = {sn: {r: comb(st) for r in rd} for sn, rd in d["sensors"].items()}
+    d["model_as_text"] = []
+    d["family"] = "integer_linear"
+    return d
+
+
 def contractive_program(rng, **kw):
     """Random program whose state stays bounded: s' = a*s + dt*bounded(...)."""
+    kw.setdefault("zero_noise", 0.0)
     d = program(rng, integrator_bias=0.0, **kw)
     model = {}
     for s, body in d["model"].items():
